@@ -1611,9 +1611,10 @@ theorem C20_node_key_order_irrelevant (d : DefaultsCfg) (n n' : NodeCfg) (hp : N
   have h12 : n'.routerIf = n.routerIf := by rw [hrest]
   have h13 : n'.wap = n.wap := by rw [hrest]
   have h14 : n'.scan = n.scan := by rw [hrest]
+  have h15 : n'.flags = n.flags := by rw [hrest]
   have houter : applyOuter n' = applyOuter n := by funext sw; simp only [applyOuter, h5]
   unfold buildNode
-  simp only [hk, h1, h2, h3, h4, h5, h6, h7, h8, h9, h10, h11, h12, h13, h14, hnics, hports, hacl, hfw, hfwa, hinst, husers, hfold, houter]
+  simp only [hk, h1, h2, h3, h4, h5, h6, h7, h8, h9, h10, h11, h12, h13, h14, h15, hnics, hports, hacl, hfw, hfwa, hinst, husers, hfold, houter]
 
 /-- `a'` is `a` with the entries of its action map in another order. -/
 structure AgentPerm (a a' : AgentCfg) : Prop where
